@@ -81,6 +81,7 @@ rc, o = sh(["git", "-C", "/repo", "apply", patch])
 if rc == 0:
     p = subprocess.run(["./check", ID, "--tier", TIER], cwd="/verif", stdout=subprocess.PIPE, stderr=subprocess.STDOUT, text=True)
     sh(["git", "-C", "/repo", "checkout", "--", "."])
+    sh(["git", "-C", "/repo", "clean", "-fdq", "--", "src", "tests"])
     lines = [l for l in p.stdout.split("\n") if re.match(r"^(VIOLATION|SUMMARY|HARNESS|  witness)", l)]
     res["check"] = {"tier": TIER, "rc": p.returncode, "lines": [l[:400] for l in lines[:8]]}
 else:
